@@ -274,6 +274,23 @@ def _ct(g):
 rel('ComputedTorque', 'ComputedTorque', _ct, shape_bound='1 joint', max_paths=60)
 
 
+def _sc(g):
+    n, N = 1, 2
+    a = _dyn_args(g, n, 'ForwardDynamics')
+    th, dth, grav, Mlist, Glist, Slist = a[0], a[1], a[3], a[5], a[6], a[7]
+    Ftipmat = g.arr([g.reals('F%d_' % k, 6) for k in range(N)])
+    thd = g.arr([g.reals('rd%d_' % k, n) for k in range(N)])
+    dthd = g.arr([g.reals('vd%d_' % k, n) for k in range(N)])
+    ddthd = g.arr([g.reals('ad%d_' % k, n) for k in range(N)])
+    cp = lambda x: x.copy() if isinstance(x, _np.ndarray) else [y.copy() for y in x]
+    return [th, dth, grav, Ftipmat, Mlist, Glist, Slist, thd, dthd, ddthd, cp(grav), cp(Mlist), cp(Glist),
+            g.real('Kp', lo=0.1, hi=5), g.real('Ki', lo=0.1, hi=5), g.real('Kd', lo=0.1, hi=5), g.real('dt', lo=0.01, hi=0.5), 1]
+
+
+rel('SimulateControl', 'SimulateControl', _sc, shape_bound='1 joint, N = 2, intRes = 1; the result plot goes to a recording no-op pyplot',
+    max_paths=60)
+
+
 class _Purity(Rel):
     """the ported dynamics functions are pure: a call's result does not depend on earlier calls with other link frames /
     inertias at the same joint state (no stale module-level state); both calls equal the reference"""
